@@ -106,6 +106,11 @@ fn replay_once(v: &Value, c: &Collector) {
     let script: Vec<Op> = v["script"].as_array().map(|a| a.iter().filter_map(Op::from_json).collect()).unwrap_or_default();
     let op = Op::from_json(&v["op"]);
     let orig_engine = v["engine"].as_str().unwrap_or("");
+    if orig_engine.ends_with("two-parsers") || orig_engine == "E3.mode-switch" || v["extra"].get("not_replayable_by_generic_replay").is_some() {
+        out!("replay: records of engine {} carry their case in the detail / extra fields (two parsers on one listener, or mode switches between chunks) and have no generic executable form", orig_engine);
+        c.count("not_replayable", 1);
+        return;
+    }
     // parser-side engines
     match (prop.as_str(), &op) {
         ("C03", Some(Op::Feed(chunks, utf8))) => {
@@ -190,6 +195,7 @@ fn replay_once(v: &Value, c: &Collector) {
     }
     if columns == 0 || lines == 0 {
         out!("replay: this record has no executable form (engine {}); see its detail field", orig_engine);
+        c.count("not_replayable", 1);
         return;
     }
     let start: Screen = match build(columns, lines, &script) {
@@ -214,6 +220,7 @@ fn replay_once(v: &Value, c: &Collector) {
         Some(o) => o,
         None => {
             out!("replay: record has no operation (state-only record); script executed without panic");
+            c.count("not_replayable", 1);
             return;
         }
     };
@@ -262,6 +269,10 @@ pub fn replay(path: &str) -> i32 {
         out!("replay: the two runs disagree (nondeterministic=true): {:?} vs {:?}", s1, s2);
     }
     if s1.is_empty() && s2.is_empty() {
+        if c1.counter("not_replayable") > 0 {
+            out!("replay: this record cannot be re-executed by `check replay` (no verdict); re-run the owning check instead");
+            return 2;
+        }
         out!("replay: no violation reproduced (the property holds on this case now)");
         return 0;
     }
